@@ -7,6 +7,7 @@ pub mod p_hist;
 pub mod p_list;
 pub mod p_path;
 pub mod p_reg;
+pub mod p_schema;
 pub mod props;
 pub mod props2;
 pub mod refcodec;
